@@ -555,6 +555,7 @@ def _amen_solve_python(A, b, nswp=22, x0=None, eps=1e-10, rmax=1024, max_full=50
                 else:
                     # search for a rank such that offeres small enough residuum
                     # TODO: binary search?
+                    _scan = {}
                     r = 0
                     for r in range(u.shape[1]-1, 0, -1):
                         # solution has the same size
@@ -570,6 +571,7 @@ def _amen_solve_python(A, b, nswp=22, x0=None, eps=1e-10, rmax=1024, max_full=50
                                 tn.float32 if use_single_precision else dtype)).to(dtype)-rhs)/norm_rhs
                         if res > max(real_tol*damp, res_new):
                             break
+                        if _verif.enabled(): _scan[r] = float(res)
                     r += 1
 
                     r = min([r, tn.numel(s), rmax[k+1]])
@@ -620,7 +622,10 @@ def _amen_solve_python(A, b, nswp=22, x0=None, eps=1e-10, rmax=1024, max_full=50
                     v = v @ Rmat.t()
 
                 r = u.shape[1]
-                _verif.emit('amen_step', swp=int(swp), k=int(k), rows=int(u.shape[0]), cols=int(rx[k+1]), use_full=bool(use_full), r_tr=_r_tr, r_add=_r_add, r_out=int(r), last=bool(last))
+                _x = {}
+                if _verif.enabled():
+                    _x = dict(crit=float(res_old), res_new=float(res_new), res_tr=float(_scan.get(_r_tr, -1.0)) if trunc_norm != 'fro' else -1.0, eps=float(eps))
+                _verif.emit('amen_step', swp=int(swp), k=int(k), rows=int(u.shape[0]), cols=int(rx[k+1]), use_full=bool(use_full), r_tr=_r_tr, r_add=_r_add, r_out=int(r), last=bool(last), **_x)
                 v = tn.einsum('ji,jkl->ikl', v, x_cores[k+1])
                 # remove norm correction
                 nrmsc = nrmsc * normA[k] * normx[k] / normb[k]
@@ -672,6 +677,7 @@ def _amen_solve_python(A, b, nswp=22, x0=None, eps=1e-10, rmax=1024, max_full=50
             tme_sweep = datetime.datetime.now()-tme_sweep
             print('Time ', tme_sweep)
 
+        _verif.emit('amen_sweep', swp=int(swp), crit=float(max_res), eps=float(eps), last=bool(last))
         if last:
             break
 
